@@ -217,7 +217,14 @@ def _prune_cache(keep):
     except OSError:
         return
     now = time.time()
-    ents.sort(key=lambda e: os.path.getmtime(os.path.join(CACHE, e)), reverse=True)
+
+    def mtime(e):
+        # a concurrent run may remove an entry between listdir and here
+        try:
+            return os.path.getmtime(os.path.join(CACHE, e))
+        except OSError:
+            return 0.0
+    ents.sort(key=mtime, reverse=True)
     for e in ents[40:]:
         pth = os.path.join(CACHE, e)
         try:
